@@ -200,6 +200,24 @@ def check_fit(ctx, rs, asker, fam, kw, desc, n_lean):
             check_krim(ctx, rs, model, kw, X, Z, base)
         except Exception as e:
             ctx.violation(f"KernelRIM: prediction raised {type(e).__name__}: {e}", "raises", base, key="predict-raised:KernelRIM", how=HOW)
+    # ---- an extreme row in the array must not change the answers for the ordinary rows next to it
+    if has_proba:
+        try:
+            mag = float(rs.choice([1e3, 1e4, 1e6]))
+            out_row = (Z[:1] if len(Z) else X[:1]) * mag + mag
+            if desc.get("nonneg"):
+                out_row = np.abs(out_row)
+            A_mix = np.ascontiguousarray(np.vstack([Z, out_row]))
+            P_alone, P_mix = proba(Z), proba(A_mix)[:-1]
+            tol = rl.tol_for(rl.cond_scale(model, kind, Z))
+            ctx.compared("oracle:outlier-row")
+            ok = np.isfinite(P_alone).all() and (rl.max_rel(P_mix, P_alone) <= tol)
+            if np.isfinite(P_alone).all() and not ok:
+                ctx.violation(f"{fam}: appending one extreme row (x{mag:g}) to the array changes predict_proba of the other rows by "
+                              f"{rl.max_rel(P_mix, P_alone):.3g} (relative)", "index-map", {**base, "array": "new+outlier", "outlier_scale": mag},
+                              key=f"outlier-row:proba:{fam}", how=HOW)
+        except PredictRaised as e:
+            ctx.count("outlier-row:predict-raised")
     # ---- predicting did not touch the fitted model
     if not same_snapshot(snap0, snapshot(model)):
         ctx.violation(f"{fam}: predict/predict_proba changed the fitted attributes", "stateless", base, key=f"mutates-model:{fam}", how=HOW)
